@@ -1,4 +1,5 @@
 import GwbVerif.Properties.C19
+import GwbVerif.Properties.C19Bezier
 open Gwb
 #print axioms C19_kdtree_nearest_search_inv
 #print axioms C19_kdtree_nearest
@@ -11,6 +12,18 @@ open Gwb
 #print axioms C19_great_circle_model
 #print axioms C19_great_circle
 #print axioms C19_great_circle_equator
+#print axioms C19_bezier_closest_on_curve
+#print axioms C19_bezier_endpoints
+#print axioms C19_bezier_bernstein
+#print axioms C19_bezier_derivative_point
+#print axioms C19_bezier_accept_iff
+#print axioms C19_bezier_accept_window
+#print axioms C19_bezier_accept_first_piece
+#print axioms C19_bezier_accept_later_piece
+#print axioms C19_bezier_closest_field
+#print axioms C19_bezier_normal_perp
+#print axioms C19_bezier_normal_vector
+#print axioms C19_bezier_normal_witness
 #check @C19_kdtree_nearest_search_inv
 #check @C19_kdtree_nearest
 #check @C19_buildMedian_inv
@@ -22,3 +35,15 @@ open Gwb
 #check @C19_great_circle_model
 #check @C19_great_circle
 #check @C19_great_circle_equator
+#check @C19_bezier_closest_on_curve
+#check @C19_bezier_endpoints
+#check @C19_bezier_bernstein
+#check @C19_bezier_derivative_point
+#check @C19_bezier_accept_iff
+#check @C19_bezier_accept_window
+#check @C19_bezier_accept_first_piece
+#check @C19_bezier_accept_later_piece
+#check @C19_bezier_closest_field
+#check @C19_bezier_normal_perp
+#check @C19_bezier_normal_vector
+#check @C19_bezier_normal_witness
